@@ -7,7 +7,6 @@ sys.path.insert(0, os.path.join(V, "lib")); sys.path.insert(0, os.path.join(V, "
 NOT_APPLICABLE = {
     "C01": "whole-program semantics of all well-typed programs against a prose semantics: needs execution against an independent oracle; its structural fragments are decided under C02, C03, C08, C10, C11",
     "C12": "laws over all pairs/triples of types through six mutually recursive relations (~150 match arms): evaluation over the type universe or a solver proof, not a shape of the code",
-    "C16": "equivalence of two program behaviours (generic call vs substituted copy); no local code shape whose violation is visible without running both variants",
     "C17": "arithmetic results (offset % align, size = len*stride, no overlap) for all types: value-level; a shape match on the arithmetic would fire on behaviour-preserving rewrites",
     "C19": "agreement with the external System V calling convention for all signatures: needs cross-language execution or a formal ABI model",
     "C20": "relation between runs on permuted inputs (history property of the worklist); no local shape is necessary for it",
